@@ -1,6 +1,6 @@
 // C37 (kernel part) — QoS validation functions executed with every scalar policy symbolic:
 //   DataWriterQos / DataReaderQos / TopicQos::is_consistent    vs. the DDS consistency rules
-//   DataWriterQos / DataReaderQos / SubscriberQos::check_immutability vs. the DDS "Changeable" column
+//   DataWriterQos / DataReaderQos / SubscriberQos / PublisherQos::check_immutability vs. the DDS "Changeable" column
 // Reference model (in support_qos.rs; DDS 1.4 §2.2.3, table of QoS policies and the per-policy clauses):
 //   RESOURCE_LIMITS  max_samples >= max_samples_per_instance            (§2.2.3.19)
 //   HISTORY          KEEP_LAST depth <= max_samples_per_instance        (§2.2.3.18)
@@ -144,11 +144,12 @@ fn c37_writer_check_immutability() {
 }
 
 // @check props=C37 tier=quick
-// @desc DataReaderQos::check_immutability(new): Err(ImmutablePolicy) whenever one of the seven Changeable=NO policies differs; Ok whenever these, the data representation and the type consistency enforcement are unchanged (deadline, latency budget, time-based filter, reader data lifecycle are changeable). SubscriberQos::check_immutability: Err(ImmutablePolicy) iff PRESENTATION differs
+// @desc DataReaderQos::check_immutability(new): Err(ImmutablePolicy) whenever one of the seven Changeable=NO policies differs; Ok whenever these, the data representation and the type consistency enforcement are unchanged (deadline, latency budget, time-based filter, reader data lifecycle are changeable). SubscriberQos::check_immutability and PublisherQos::check_immutability: Err(ImmutablePolicy) iff PRESENTATION differs
 // @bounds both DataReaderQos values with every scalar policy symbolic; both SubscriberQos with presentation and autoenable symbolic (partition / group data empty). unwind 6
 // @assume when ONLY data representation / type consistency differ the oracle accepts either answer
 // @enc infrastructure::qos::DataReaderQos::check_immutability
 // @enc infrastructure::qos::SubscriberQos::check_immutability
+// @enc infrastructure::qos::PublisherQos::check_immutability
 #[kani::proof]
 #[kani::unwind(6)]
 fn c37_reader_subscriber_check_immutability() {
@@ -174,7 +175,15 @@ fn c37_reader_subscriber_check_immutability() {
     let rs = sa.check_immutability(&sb);
     assert!(rs.is_ok() == (sa.presentation == sb.presentation), "C37: SubscriberQos::check_immutability rejects exactly a PRESENTATION change");
     assert!(rs.is_ok() || is_immutable(&rs), "C37: SubscriberQos::check_immutability rejects with ImmutablePolicy");
+    let mut pa = crate::infrastructure::qos::PublisherQos::const_default();
+    let mut pb = crate::infrastructure::qos::PublisherQos::const_default();
+    pa.presentation = sa.presentation.clone();
+    pb.presentation = sb.presentation.clone();
+    pb.entity_factory.autoenable_created_entities = kani::any();
+    let rp = pa.check_immutability(&pb);
+    assert!(rp.is_ok() == (pa.presentation == pb.presentation), "C37: PublisherQos::check_immutability rejects exactly a PRESENTATION change");
+    assert!(rp.is_ok() || is_immutable(&rp), "C37: PublisherQos::check_immutability rejects with ImmutablePolicy");
     kani::cover!(rs.is_ok() && sa.entity_factory != sb.entity_factory, "entity factory change accepted");
     kani::cover!(rs.is_err() && sa.presentation.access_scope == sb.presentation.access_scope, "rejected through a presentation flag");
-    core::mem::forget((a, b, sa, sb));
+    core::mem::forget((a, b, sa, sb, pa, pb));
 }
